@@ -486,82 +486,87 @@ func c03Exec(j c03Job, p *c03Prep, ch vrt.Chooser, states *vrt.StateSet, trace b
 			}
 		}
 
-		envDone := false
+		envDone, envOps := false, 0
 		quiet := make([]bool, len(tasks))
 		stepStart := make([]int, len(tasks)) // exchanges logged when the running step began; -1 = between steps
 		for i := range stepStart {
 			stepStart[i] = -1
 		}
 		var threads []*vrt.Thread
+		// runTask steps one task. explored=true: the body of the task's thread; with several tasks it ends as soon
+		// as the source has settled, and the tasks are then drained one after the other by the main thread
+		// (explored=false) — the schedule space of several tasks is only explored while the source changes.
+		horizon := 4*j.N + 8
+		runTask := func(ti int, task *world.Task, explored bool) {
+			nothing, settled := 0, 0
+			var lastOut string
+			var lastErr error
+			for settled < horizon {
+				if explored {
+					if nIG > 1 && envDone {
+						return
+					}
+					vrt.Boundary("step")
+				}
+				if w.V.Closing() {
+					return
+				}
+				wasDone := envDone
+				stepStart[ti] = len(w.Net.Exchanges())
+				out, err := task.Step()
+				stepStart[ti] = -1
+				if trace {
+					cur, _ := w.Latest(task.Src, task.IG)
+					res.steps = append(res.steps, fmt.Sprintf("%s step: %s (%v) -> cursor %d %x, served through v%d, settled=%v", task.Key(), out, err, cur.Num, cur.Hash, w.Node("node1").Version, wasDone))
+				}
+				if w.V.Closing() || res.vio != nil {
+					return
+				}
+				if out == "panic" {
+					vio("panic", "panic:"+j.Igs, fmt.Sprintf("Converge of %s panicked: %v", task.Key(), err))
+					return
+				}
+				if wasDone {
+					settled++
+					lastOut, lastErr = out, err
+				}
+				if out == "nothing" && wasDone {
+					nothing++ // only polls that began after the source settled count
+				} else {
+					nothing = 0
+				}
+				if wasDone && nothing >= nIG+1 {
+					quiet[ti] = true
+					return
+				}
+				if !envDone && out != "ok" {
+					// polling an unchanged source again would repeat the step: wait for the next change of the source
+					seen := envOps
+					w.V.Point("wait-source", false, func() bool { return envOps != seen || envDone })
+				}
+			}
+			cur, _ := w.Latest(task.Src, task.IG)
+			key := "noconverge:" + lastOut + ":" + cond()
+			switch lastOut {
+			case "error":
+				key = "noconverge:error:" + errClass(lastErr) + ":" + cond()
+			case "ahead":
+				// the step refuses to run while the recorded position is above the source's head
+				key = "reorg-undetected:new-head<recorded-position"
+			}
+			vio("noconverge", key, fmt.Sprintf("%s: after the source settled (final head %d, hash %x) %d further steps did not reach quiescence: cursor=%d hash %x, last outcome %q: %v [%s]", task.Key(), finalHead, p.final.Head().Hash[:4], settled, cur.Num, cur.Hash, lastOut, lastErr, info))
+		}
 		for ti, task := range tasks {
 			ti, task := ti, task
 			name := "task"
 			if nIG > 1 {
 				name = fmt.Sprintf("task%d", ti+1)
 			}
-			th := w.V.GoNamed(name, func() {
-				horizon := 4*j.N + 8
-				nothing, settled := 0, 0
-				var lastOut string
-				var lastErr error
-				for settled < horizon {
-					if nIG > 1 && envDone {
-						vrt.Yield("step") // settled source, several tasks: switching at a step boundary costs a preemption like anywhere else
-					} else {
-						vrt.Boundary("step")
-					}
-					if w.V.Closing() {
-						return
-					}
-					wasDone := envDone
-					stepStart[ti] = len(w.Net.Exchanges())
-					out, err := task.Step()
-					stepStart[ti] = -1
-					if trace {
-						cur, _ := w.Latest(task.Src, task.IG)
-						res.steps = append(res.steps, fmt.Sprintf("%s step: %s (%v) -> cursor %d %x, served through v%d, settled=%v", task.Key(), out, err, cur.Num, cur.Hash, w.Node("node1").Version, wasDone))
-					}
-					if w.V.Closing() {
-						return
-					}
-					if out == "panic" {
-						vio("panic", "panic:"+j.Igs, fmt.Sprintf("Converge of %s panicked: %v", task.Key(), err))
-						return
-					}
-					if wasDone {
-						settled++
-						lastOut, lastErr = out, err
-					}
-					if out == "nothing" && wasDone {
-						nothing++ // only polls that began after the source settled count
-					} else {
-						nothing = 0
-					}
-					if wasDone && nothing >= nIG+1 {
-						quiet[ti] = true
-						return
-					}
-					if !envDone && out != "ok" {
-						vrt.Sleep(time.Second)
-					}
-				}
-				cur, _ := w.Latest(task.Src, task.IG)
-				key := "noconverge:" + lastOut + ":" + cond()
-				switch lastOut {
-				case "error":
-					key = "noconverge:error:" + errClass(lastErr) + ":" + cond()
-				case "ahead":
-					// the step refuses to run while the recorded position is above the source's head
-					key = "reorg-undetected:new-head<recorded-position"
-				}
-				vio("noconverge", key, fmt.Sprintf("%s: after the source settled (final head %d, hash %x) %d further steps did not reach quiescence: cursor=%d hash %x, last outcome %q: %v [%s]", task.Key(), finalHead, p.final.Head().Hash[:4], settled, cur.Num, cur.Hash, lastOut, lastErr, info))
-			})
+			th := w.V.GoNamed(name, func() { runTask(ti, task, true) })
 			// reduction (several tasks): a task thread is switched to preemptively only while the running thread is
 			// at an RPC exchange (the shared source client) or at a step boundary; the SQL statements of the two
 			// integrations touch different tables and positions stamped with different integration names
-			th.OnlyAt = func(l string) bool {
-				return strings.HasPrefix(l, "rpc:") || strings.HasPrefix(l, "boundary:") || l == "step"
-			}
+			th.OnlyAt = func(l string) bool { return strings.HasPrefix(l, "rpc:") || strings.HasPrefix(l, "boundary:") }
 			threads = append(threads, th)
 		}
 		env := w.V.GoNamed("env", func() {
@@ -573,6 +578,7 @@ func c03Exec(j c03Job, p *c03Prep, ch vrt.Chooser, states *vrt.StateSet, trace b
 					return
 				}
 				w.SetChain("node1", op.chain, op.label)
+				envOps++
 				if op.fork >= 0 {
 					// greatest recorded position <= fork, per integration, at the moment the reorg lands
 					for _, d := range p.decls {
@@ -599,8 +605,17 @@ func c03Exec(j c03Job, p *c03Prep, ch vrt.Chooser, states *vrt.StateSet, trace b
 		})
 		env.OnlyAt = onlyAtIO
 		w.V.Join(append(threads, env)...)
+		g.open = false
 		if res.vio != nil || w.V.Closing() {
 			return
+		}
+		if nIG > 1 {
+			for ti, task := range tasks {
+				runTask(ti, task, false)
+				if res.vio != nil || w.V.Closing() {
+					return
+				}
+			}
 		}
 		// ---- oracle at quiescence
 		for ti, task := range tasks {
